@@ -82,6 +82,7 @@ type Knobs struct {
 	W             map[string]int `json:"weights"`
 	Sticky        int            `json:"sticky"`
 	PCB           bool           `json:"persisted_callbacks"`
+	ReuseBatch    bool           `json:"reuse_batch,omitempty"` // every client keeps one Batch object and Reset()s it between calls
 	Geo           bool           `json:"geo"`
 	MergeBuf      int            `json:"merge_buf"`
 	NoOpt         bool           `json:"no_optimisations"`
@@ -100,6 +101,7 @@ func decodeKnobs(p *Profile, t *Tape) *Knobs {
 		k.Unsafe = t.Chance(1, 3, "k.unsafe")
 	}
 	k.PCB = k.Unsafe && t.Chance(2, 3, "k.pcb")
+	k.ReuseBatch = t.Chance(1, 3, "k.reusebatch")
 	if p.AckedOnly && k.Unsafe {
 		k.PCB = true
 	}
@@ -203,6 +205,7 @@ type client struct {
 	opsLeft  int
 	done     bool
 	curBatch *BatchSpec
+	reuse    *index.Batch
 }
 
 type RunStats struct {
@@ -500,6 +503,16 @@ func (r *Run) exec(c *client, op *Op) {
 	case "batch":
 		b := op.Batch
 		ib := b.Index()
+		if r.k.ReuseBatch && b.Via == "" && !r.conc {
+			// the documented way to reuse a Batch: Reset, then fill again
+			if c.reuse == nil {
+				c.reuse = bluge.NewBatch()
+			}
+			c.reuse.Reset()
+			b.IndexInto(c.reuse)
+			ib = c.reuse
+			r.probe("batch-object-reused")
+		}
 		if r.k.PCB {
 			n := b.N
 			ib.SetPersistedCallback(func(err error) {
@@ -1210,6 +1223,9 @@ func (r *Run) afterWindow() {
 			}
 		case *DirOp:
 			r.stats.DirOps++
+			if d.AfterUnlock && (r.p.DirInv || r.p.EarlyClose) {
+				r.fail("lock-released-early", fmt.Sprintf("%s of %s was issued by %s through a writer that had already released the directory lock: the lock was given away while the writer's loops were still at work (a second writer could open meanwhile)", d.Op, fileName(d.Kind, d.ID), d.Actor))
+			}
 			if d.Op == "persist" && d.Kind == ".snp" && d.PrevExisted && d.Err == "" {
 				r.stats.Probes["same-epoch-rewrite-after-recovery"]++
 				if len(d.Prev) > len(d.Data) {
